@@ -7,7 +7,8 @@
    That the reply is the Redis-typed encoding of the documented API call and
    that the database content is that of the API call is decided by the wire
    differential run against an independent oracle (see DESIGN.md), not here. *)
-From Redka Require Import Base Parser ProofParser.
+From Redka Require Import Base Parser ProofParser ProofParserOrder.
+From Coq Require Import Permutation.
 From Redka.gen Require ParseSpecs.
 
 (* option keywords are recognised regardless of letter case: two tokens that
@@ -65,6 +66,62 @@ Theorem C13_all_keywords_lower_case_in_source :
   forallb (fun s => forallb keywords_lower (pl_parsers (snd s))) ParseSpecs.all_specs = true.
 Proof. exact all_specs_keywords_lower. Qed.
 
+(* ---- optional arguments are accepted in any order (ProofParserOrder.v) ----
+   order_ok p (boolean, evaluated on every generated spec below): positional parsers first; every
+   option is a Flag, a Named whose sub-parsers take one argument each, or a OneOf of such; keywords
+   and destinations of different options are distinct.  An occurrence of an option is its keyword in
+   any letter case followed by one accepted value per sub-parser (a value may spell another keyword).
+   penv_equiv: the same error, or environments that bind every variable alike.
+   sib_ok o rest: what follows does not start with the keyword of another alternative of the same
+   OneOf (the OneOf combinator runs all its alternatives one after another: without this condition
+   both orders still fail or succeed together - options_commute_weak - but may name different errors:
+   C13_error_kind_may_depend_on_order). *)
+Theorem C13_two_options_commute :
+  forall (is_float : bytes -> bool) (p : pipeline) (pre s1 s2 rest posargs : list bytes)
+         (e0 : penv) (mid : list (prim * list bytes)) (o1 o2 : prim),
+    order_ok p = true ->
+    pre = posargs ++ flat mid ->
+    run_pos is_float (pos_part p) [] posargs = Some (e0, []) ->
+    occs_ok is_float (opt_part p) (mid ++ [(o1, s1); (o2, s2)]) ->
+    sib_ok o1 rest ->
+    sib_ok o2 rest ->
+    penv_equiv (run_pipeline is_float p (pre ++ s1 ++ s2 ++ rest))
+               (run_pipeline is_float p (pre ++ s2 ++ s1 ++ rest)).
+Proof. exact options_commute. Qed.
+
+Theorem C13_options_in_any_order :
+  forall (is_float : bytes -> bool) (p : pipeline) (posargs : list bytes) (e0 : penv)
+         (l1 l2 : list (prim * list bytes)) (rest : list bytes),
+    order_ok p = true ->
+    run_pos is_float (pos_part p) [] posargs = Some (e0, []) ->
+    occs_ok is_float (opt_part p) l1 ->
+    rest_ok l1 rest ->
+    Permutation l1 l2 ->
+    penv_equiv (run_pipeline is_float p (posargs ++ flat l1 ++ rest))
+               (run_pipeline is_float p (posargs ++ flat l2 ++ rest)).
+Proof. exact options_permute. Qed.
+
+Theorem C13_two_options_commute_weakly_whatever_follows :
+  forall (is_float : bytes -> bool) (p : pipeline) (pre s1 s2 rest posargs : list bytes)
+         (e0 : penv) (mid : list (prim * list bytes)) (o1 o2 : prim),
+    order_ok p = true ->
+    pre = posargs ++ flat mid ->
+    run_pos is_float (pos_part p) [] posargs = Some (e0, []) ->
+    occs_ok is_float (opt_part p) (mid ++ [(o1, s1); (o2, s2)]) ->
+    weak_equiv (run_pipeline is_float p (pre ++ s1 ++ s2 ++ rest))
+               (run_pipeline is_float p (pre ++ s2 ++ s1 ++ rest)).
+Proof. exact options_commute_weak. Qed.
+
+Theorem C13_all_generated_specs_admit_reordering :
+  forallb (fun s => order_ok (snd s)) ParseSpecs.all_specs = true.
+Proof. exact all_specs_order_ok. Qed.
+
+Theorem C13_error_kind_may_depend_on_order :
+  run_pipeline fl ParseSpecs.spec_string_ParseSet (["k"; "v"] ++ ["ex"; "10"] ++ ["get"] ++ ["px"; "abc"]) = inr PErrSyntax /\
+  run_pipeline fl ParseSpecs.spec_string_ParseSet (["k"; "v"] ++ ["get"] ++ ["ex"; "10"] ++ ["px"; "abc"]) = inr PErrInt /\
+  sib_okb set_ttl ["px"; "abc"] = false.
+Proof. exact oneof_needs_rest_condition. Qed.
+
 Print Assumptions C13_flag_keywords_case_insensitive.
 Print Assumptions C13_named_keywords_case_insensitive.
 Print Assumptions C13_enum_keywords_case_insensitive.
@@ -77,3 +134,8 @@ Print Assumptions C13_leftover_arguments.
 Print Assumptions C13_negative_count_is_refused.
 Print Assumptions C13_all_commands_positional_first.
 Print Assumptions C13_all_keywords_lower_case_in_source.
+Print Assumptions C13_two_options_commute.
+Print Assumptions C13_options_in_any_order.
+Print Assumptions C13_two_options_commute_weakly_whatever_follows.
+Print Assumptions C13_all_generated_specs_admit_reordering.
+Print Assumptions C13_error_kind_may_depend_on_order.
